@@ -123,6 +123,8 @@ def case_strategy():
         gen = [["yield", draw(expr_strategy(allow_cn=False))] for _ in range(draw(st.integers(0, 2)))]
         return {"host": host, "stmts": stmts, "hi": hi, "gen": gen,
                 "closure": draw(st.booleans()), "defaults": draw(st.booleans()),
+                # the method's own scope rebinds a builtin name the generated lookup might rely on
+                "shadow": draw(st.sampled_from([None, None, None, "type", "isinstance", "tuple"])),
                 # how the body spells the recursion: the special `recurse`, the function's own name (a global, or a
                 # closure cell when the functions are built in a factory), or both
                 "recname": draw(st.sampled_from(["recurse", "recurse", "self", "both"])) if host == "func" else "recurse"}
@@ -215,6 +217,8 @@ def render(spec, real):
     if spec["defaults"]:
         sig = "x: Tok, d=DEF_D, lam=lambda q: ('lam', q), *, k: object = 0, kd=DEF_KD, klam=lambda q: ('klam', q)"
     body = [f"{ind}acc = []", f"{ind}v = 1"]
+    if spec.get("shadow"):
+        body.append(f"{ind}{spec['shadow']} = 5")
     for kind, e in spec["stmts"]:
         e2 = subst(number(e, nxt)).replace("{CN}", names["CN"])
         body += render_stmt(kind, e2, ind)
@@ -227,6 +231,8 @@ def render(spec, real):
     emit_def([], sig, body)
     if spec["hi"]:
         body = [f"{ind}acc = []", f"{ind}v = 1"]
+        if spec.get("shadow"):
+            body.append(f"{ind}{spec['shadow']} = 5")
         for kind, e in spec["hi"]:
             e2 = subst(number(e, nxt))
             if real:
